@@ -653,12 +653,19 @@ def all_keys():
     return keys
 
 
-def build_table(farm, keys, harness_errors):
+def build_table(farm, keys, harness_errors, full=True, salt=0):
+    """Every key once in its own pristine child; a second time (reproducibility between two pristine processes, the
+    not_reproducible oracle) for every randomised key, and for all keys when ``full`` - otherwise for a quarter of the
+    deterministic keys, rotating with the batch seed."""
+    import zlib
+
     from .canon import close
 
+    ops = _cat().OPS
     jobs = []
     for k in keys:
-        for rep in (0, 1):
+        twice = full or ops[k["op"]].rand or zlib.crc32(("%s/%d" % (k["op"], salt)).encode()) % 4 == 0
+        for rep in ((0, 1) if twice else (0,)):
             jobs.append({"kind": "pristine", "op": k["op"], "rng_seed": k.get("rng_seed"), "rep": rep})
     got = {}
     for job, res in farm.run(jobs, RUN_TIMEOUT):
@@ -722,7 +729,7 @@ def executable_lines():
 
 
 def prepare(farm, batch_seed, tier, cfg, harness_errors):
-    table = build_table(farm, all_keys(), harness_errors)
+    table = build_table(farm, all_keys(), harness_errors, full=(tier == "thorough"), salt=batch_seed)
     covered = set()
     for v in table.values():
         for fl in v.pop("lines", []):
